@@ -4,6 +4,8 @@ Generator + oracle for the correspondence run (model: lean/JsonC/Model/Serialize
 Spec/Rfc8259.lean, harness: harness/ser.c).  Three independent judges look at every text the implementation returns:
 the Lean model (byte-for-byte), the Lean specification (Rfc8259.Text.ofBytes reader + Doc.denote + the explicit document docOf of
 the theorems; printed in the driver's spec field) and Python's `json` module (below)."""
+import sys as _sys
+_sys.setrecursionlimit(100000)
 import json, re, struct
 from common import hexs
 
@@ -537,6 +539,13 @@ def gen(rng, tier):
         d = dump(v)
         yield {"lines": ["ser %d %s" % (f, d) for f in ALL_FLAGS]}
         yield {"lines": ["rt %d %s" % (f, d) for f in ALL_FLAGS]}
+    # 1b. deep chains (built through the API, so the tokener's depth limit plays no part): the serializer recurses over
+    #     the whole tree, however deep it is
+    def deepchain(d, leaf):
+        return "".join("[" if i % 2 == 0 else "{61:" for i in range(d)) + leaf + "".join("]" if i % 2 == 0 else "}" for i in reversed(range(d)))
+    for d in ((1030, 1800) if quick else (1023, 1024, 1025, 2500, 4000)):
+        yield {"lines": ["ser 0 %s" % deepchain(d, "i1"), "ser 16 %s" % deepchain(d, "s2f")] + (["ser 2 %s" % deepchain(200, "n")] if d < 1100 else []),
+               "noshrink": True}
     # 2. every single byte as a string and as a key (key: not NUL), a few flag sets
     for c in range(256):
         fl = [0, 16, 32 + 2, 63] if quick else [0, 16, 1, 2, 34, 63, 48]
